@@ -124,6 +124,13 @@ def _worker_init():
 
     logging.disable(logging.CRITICAL)
     os.environ.setdefault("PYTHONHASHSEED", "0")
+    try:  # die with the parent: a killed check must not leave workers burning CPU
+        import ctypes
+        import signal
+
+        ctypes.CDLL("libc.so.6", use_errno=True).prctl(1, signal.SIGKILL)  # PR_SET_PDEATHSIG
+    except Exception:
+        pass
     _WORKER_READY = True
 
 
